@@ -406,7 +406,7 @@ def run_shard(ctx):
         run_roundtrip(ctx, gd)
         if i % 3 == 0:
             run_evans(ctx, gd, rng)
-    for i in range(ctx.share({"quick": 4000, "thorough": 120000}[ctx.tier])):
+    for i in range(ctx.share({"quick": 15000, "thorough": 120000}[ctx.tier])):
         run_dag(ctx, random_lvdag(rng), rng, check_sep=(i % 3 == 0))
     for i in range(ctx.share({"quick": 60, "thorough": 1500}[ctx.tier])):
         dd = random_lvdag(rng, rng.randint(3, 5))
